@@ -60,7 +60,7 @@ structure ValueTable where
   sentinels : List (String × Option String)
   /-- `.asModelled`: for every format, Import starts with
         `val == nil`            → `v.raw = nil; return nil`
-        `val.(Row)`             → Auto, Hidden: `v.raw = the row; return nil`; every other format: the format's row below
+        `val.(Row)`             → Auto, Hidden with `v.typ == nil`: `v.raw = the row; return nil`; otherwise: the format's row below
         `val.(Value)` (no Row)  → `v.f, v.raw, v.typ = val.GetFormat(), val.Raw(), val.GetRawType(); return nil`
       and what remains is the format's row below. -/
   importPreamble : BodyTag
